@@ -78,6 +78,10 @@ void* iglue_export_memory(void* inst) {
     return inst_memory((instInstance*)inst);
 #endif
 }
+/* the export name table every instance carries (used by embedders and by WASI thread-spawn to find functions by name) */
+int iglue_func_export_count(void* inst) { wasmFuncExport* e = ((wasmModuleInstance*)inst)->funcExports; int n = 0; if (!e) return -1; while (e[n].func != NULL) n++; return n; }
+const char* iglue_func_export_name(void* inst, int k) { return ((wasmModuleInstance*)inst)->funcExports[k].name; }
+unsigned iglue_func_export_call_i(void* inst, int k) { return ((U32 (*)(void*))((wasmModuleInstance*)inst)->funcExports[k].func)(inst); }
 void* iglue_tab_object(void* inst) {
 #if TAB_IMPORTED
     return ((instInstance*)inst)->TAB_FIELD;
